@@ -776,6 +776,15 @@ macro_rules! interp {
             "to_vec" => { let (r, q) = (reg($w[1]), reg($w[2]));
                 (exec(0, || { let t = $regs[r].as_slice().to_vec(); $regs[q] = t; }),
                  exec(1, || { let t = $mirs[r].as_slice().to_vec(); $mirs[q] = t; })) }
+            "to_vec_sm" => { let (r, q) = (reg($w[1]), reg($w[2]));
+                (exec(0, || { let t = $regs[r].as_mut_slice().to_vec(); $regs[q] = t; }),
+                 exec(1, || { let t = $mirs[r].as_mut_slice().to_vec(); $mirs[q] = t; })) }
+            "to_vec_ts" => { let (r, q) = (reg($w[1]), reg($w[2]));
+                (exec(0, || { let t = ::soa_derive::ToSoAVec::to_vec(&$regs[r].as_slice()); $regs[q] = t; }),
+                 exec(1, || { let t = $mirs[r].as_slice().to_vec(); $mirs[q] = t; })) }
+            "to_vec_tsm" => { let (r, q) = (reg($w[1]), reg($w[2]));
+                (exec(0, || { let t = ::soa_derive::ToSoAVec::to_vec(&$regs[r].as_mut_slice()); $regs[q] = t; }),
+                 exec(1, || { let t = $mirs[r].as_mut_slice().to_vec(); $mirs[q] = t; })) }
             "extend_from_slice" => { let (r, q) = (reg($w[1]), reg($w[2]));
                 (exec(0, || { let (a, b) = two_mut(&mut $regs, r, q); a.extend_from_slice(b.as_slice()); }),
                  exec(1, || { let (a, b) = two_mut(&mut $mirs, r, q); a.extend_from_slice(b.as_slice()); })) }
